@@ -578,6 +578,12 @@ def _pspec_rank_mismatch(state, pspec):
 
 
 def handle(job):
+  if job.get("selftest_crash"):
+    # binding self-test of the driver: a case that kills its worker process (as jaxlib's CPU
+    # backend does when a pmap program over several devices computes on zero-size operands)
+    import os
+    import signal
+    os.kill(os.getpid(), signal.SIGSEGV)
   res = {"outcome": "ok", "phase": "done", "step": None, "error": None, "layout": None,
          "clauses": [], "nupd": 0, "secs": {}}
   t00 = time.time()
